@@ -22,8 +22,29 @@ def _tol_cond(c, truth, tol_params: set[str], funcq: str) -> bool:
     return False
 
 
+def _scaled_by_input_norm(c, funcq: str, vec_param: str | None) -> str | None:
+    """The tested quantity carries the norm of the input vector as a bare factor (the estimate is computed on the
+    normalised vector and is relative; multiplying or dividing it by ‖v‖ turns the requested relative tolerance into an
+    absolute one)."""
+    if vec_param is None:
+        return None
+    from ..algebra import monomials
+    op, a, b = c[1], strip_typed(c[2]), strip_typed(c[3])
+    tested = b if (a[0] == "param" and a[1] == funcq) else a
+    vec = ("param", funcq, vec_param)
+    for m in monomials(tested):
+        for atom in m:
+            t = strip_typed(atom) if isinstance(atom, tuple) else atom
+            inner = t[1] if isinstance(t, tuple) and t and t[0] == "inv" else t
+            while isinstance(inner, tuple) and inner and inner[0] == "mcall" and inner[2] in ("item", "cpu", "real"):
+                inner = strip_typed(inner[1])
+            if isinstance(inner, tuple) and inner and inner[0] == "mcall" and inner[2].split(".")[-1] == "norm" and strip_typed(inner[1]) == vec:
+                return show(tested)[:80]
+    return None
+
+
 def result_honest(ctx, funcq: str, result_cls: str, tol_params: set[str], flag: str = "converged",
-                  loop_iters=(1,)) -> None:
+                  loop_iters=(1,), vec_param: str | None = None) -> None:
     """Every `result_cls(converged=True)` built in funcq is preceded on its path by a passed tolerance test."""
     prog = ctx.prog
     f = prog.func(funcq)
@@ -43,6 +64,16 @@ def result_honest(ctx, funcq: str, result_cls: str, tol_params: set[str], flag: 
                     n_true += 1
                     ok = any(_tol_cond(c, t, tol_params, funcq) for c, t in p.cond_log[: e.ncond])
                     conds = "; ".join(f"{show(c)[:40]}={t}" for c, t in p.cond_log[: e.ncond])
+                    scaled = [s_ for c, t in p.cond_log[: e.ncond] if _tol_cond(c, t, tol_params, funcq)
+                              for s_ in [_scaled_by_input_norm(c, funcq, vec_param)] if s_]
+                    if scaled:
+                        ctx.ob("CONV-honest", f"{funcq}|tolerance is relative to the input norm", e.loc(), False,
+                               f"the quantity tested against the tolerance, {scaled[0]}, carries ‖{vec_param}‖ as a factor: the "
+                               f"estimate is computed on the normalised vector, so this makes the tolerance absolute — for inputs "
+                               f"of small norm convergence is reported with a relative error far above the request", entry=funcq)
+                    elif vec_param is not None:
+                        ctx.ob("CONV-honest", f"{funcq}|tolerance is relative to the input norm", e.loc(), True,
+                               f"the tested estimate is not rescaled by ‖{vec_param}‖")
                     ctx.ob("CONV-honest", f"{funcq}|{util.akey(e.node, e.func, 50)}|{_which(p, e, tol_params, funcq)}", e.loc(), ok,
                            f"{flag}=True only after a tolerance test passed" if ok else
                            f"{result_cls.split('.')[-1]}({flag}=True) is reachable without any passed test against "
